@@ -1,7 +1,8 @@
 (* C15 — the full completeness clause ("every stub annotation for an unannotated position is present in
    the result") is FALSE of the faithful model of today's code, in two classes (call site: libcst 1.9.0). *)
 From Coq Require Import List Bool String.
-From MT Require Import Apply ApplyFacts ApplyExamples.
+From MT Require Import Apply ApplyFacts ApplyExamples ApplyIdemBase ApplyIdemImports ApplyIdem.
+From MT.Props Require Import C15.
 Import ListNotations.
 Open Scope list_scope.
 
@@ -24,3 +25,20 @@ Theorem apply_complete_dotted_refuted :
     /\ completeb (mk_env ow stub src) (excl_known (stub_symbols stub)) src (core src out) = true.
 Proof. exists false, dot_stub, dot_src, dot_out. vm_compute. repeat split; reflexivity. Qed.
 Print Assumptions apply_complete_dotted_refuted.
+
+(* ---- additions for Refuted/C15.v ---- *)
+Theorem C15_full_refuted : ~ C15_full.
+Proof. exact idempotent_unconditional_refuted. Qed.
+Print Assumptions C15_full_refuted.
+Theorem apply_idempotent_redefinition_refuted :
+  second_differs false ce_redef_stub ce_redef_src = true
+  /\ reimport_safe ce_redef_stub = true /\ idem_side false ce_redef_stub ce_redef_src = false.
+Proof. exact idem_ce_redefinition. Qed.
+Print Assumptions apply_idempotent_redefinition_refuted.
+Theorem apply_idempotent_overwrite_quote_refuted :
+  second_differs true ce_quote_stub ce_quote_src = true
+  /\ second_differs false ce_quote_stub ce_quote_src = false
+  /\ reimport_safe ce_quote_stub = true /\ idem_side true ce_quote_stub ce_quote_src = false
+  /\ idem_side false ce_quote_stub ce_quote_src = true.
+Proof. exact idem_ce_overwrite_quote. Qed.
+Print Assumptions apply_idempotent_overwrite_quote_refuted.
